@@ -126,7 +126,16 @@ def stop_iteration_async(case, msg, observed=None):
     return "coroutine raised StopIteration" in (msg or "") or "coroutine raised StopIteration" in (rep or "")
 
 
-MATCHERS = {f.__name__: f for f in (stop_iteration_async, waiter_with_edge_default, ambiguous_cycle_entry, empty_map_silent, viz_renamed_boundary, interrupt_handler_wrapped, interrupt_with_edge_default, bound_output_name)}
+def equal_but_distinct_default(case, msg, observed=None):
+    """The chain A() -> x ; C(x=<default>) -> y ; D(y) -> z where the upstream value and the default compare equal in Python
+    (1 == True, 1 == 1.0, 0 == -0.0) but are distinguishable: C runs early on the default, re-runs on A's value, the new y
+    compares equal to the old one, so its version does not advance and D is never re-run."""
+    if not isinstance(case, dict) or case.get("family") != "equal_distinct_default":
+        return False
+    return bool(case.get("equal")) and case.get("default") != case.get("upstream") and "was not re-run when y changed" in (msg or "")
+
+
+MATCHERS = {f.__name__: f for f in (equal_but_distinct_default, stop_iteration_async, waiter_with_edge_default, ambiguous_cycle_entry, empty_map_silent, viz_renamed_boundary, interrupt_handler_wrapped, interrupt_with_edge_default, bound_output_name)}
 
 
 def classify(ctx, case, msg, observed=None):
